@@ -31,7 +31,7 @@ FirSet(fir) == {<<fir[k].r, fir[k].i>> : k \in DOMAIN fir}
 
 StepW == /\ e.ev = "W"
          /\ LET p == Run(Seen(e))
-                acc == p.done /\ p.pos = Len(Seen(e)) + 1
+                acc == p.done /\ p.n >= Len(Seen(e))
                 ok == (e.acc = acc) /\ (e.fir = NonEmptyFirings(p.fir))
             IN  /\ \/ ok
                    \/ ~ok /\ PrintT(<<"REJECT", l, "C17", IF e.acc # acc THEN "witness-accept-mismatch"
